@@ -496,3 +496,304 @@ theorem gr_dar_list (qs : List Modulus) (invs : List MulOperand) (s n : Nat) (cs
       rw [if_neg (by omega), this, hlastget, gr_getD_append_right _ _ _ _ (by rw [List.length_map, List.length_range']),
         List.length_map, List.length_range', Nat.sub_self]
       rfl
+
+theorem gr_flat_getD (n : Nat) : ∀ (cs : List (List Nat)) (i j : Nat), (∀ c ∈ cs, c.length = n) → i < cs.length → j < n →
+    cs.flatten.getD (i * n + j) 0 = (cs.getD i []).getD j 0 := by
+  intro cs
+  induction cs with
+  | nil => intro i j _ hi; simp at hi
+  | cons c cs ih =>
+    intro i j h hi hj
+    have hc := h c (by simp)
+    rw [List.flatten_cons]
+    cases i with
+    | zero => rw [Nat.zero_mul, Nat.zero_add, gr_getD_append_left _ _ _ _ (by omega)]; rfl
+    | succ i =>
+      rw [gr_getD_append_right _ _ _ _ (by rw [hc, Nat.succ_mul]; omega), List.getD_cons_succ]
+      have : (i + 1) * n + j - c.length = i * n + j := by rw [hc, Nat.succ_mul]; omega
+      rw [this]
+      exact ih i j (fun x hx => h x (by simp [hx])) (by simpa using hi) hj
+
+
+/-- in-place loop at an offset: position `off + j` is rewritten with `G j old-value` for `j = j0, j0+1, …` -/
+theorem gr_offloop (loop : Nat → Nat → List Nat → R (List Nat)) (G : Nat → Nat → R Nat) (off N : Nat)
+    (h0 : ∀ j l, loop 0 j l = .ok l)
+    (hs : ∀ k j (l : List Nat) (h : off + j < l.length), j < N → loop (k+1) j l = (G j l[off + j] >>= fun y => loop k (j+1) (l.set (off + j) y))) :
+    ∀ k j (l : List Nat), j + k ≤ N → off + j + k ≤ l.length →
+      loop k j l = ((List.range' j k).mapM (fun j' => G j' (l.getD (off + j') 0)) >>= fun ys => .ok (l.take (off + j) ++ ys ++ l.drop (off + j + k))) := by
+  intro k
+  induction k with
+  | zero =>
+    intro j l _ _
+    rw [h0, List.range'_zero, gr_mapM_nil, gr_ok_bind, List.append_nil, Nat.add_zero, List.take_append_drop]
+  | succ k ih =>
+    intro j l hN hl
+    have hi : off + j < l.length := by omega
+    rw [hs k j l hi (by omega), List.range'_succ, gr_mapM_cons]
+    have hg : l.getD (off + j) 0 = l[off + j] := by rw [List.getD_eq_getElem?_getD, List.getElem?_eq_getElem hi]; rfl
+    rw [hg]
+    cases hG : G j l[off + j] with
+    | error e => rfl
+    | ok y =>
+      rw [gr_ok_bind, gr_ok_bind, ih (j+1) (l.set (off + j) y) (by omega) (by rw [List.length_set]; omega)]
+      have hc : (List.range' (j+1) k).mapM (fun j' => G j' ((l.set (off + j) y).getD (off + j') 0)) = (List.range' (j+1) k).mapM (fun j' => G j' (l.getD (off + j') 0)) := by
+        apply gr_mapM_congr
+        intro j' hj
+        rw [List.mem_range'_1] at hj
+        rw [gr_getD_set_ne _ _ _ _ _ (by omega)]
+      rw [hc]
+      cases hm : (List.range' (j+1) k).mapM (fun j' => G j' (l.getD (off + j') 0)) with
+      | error e => rfl
+      | ok ys =>
+        rw [gr_ok_bind, gr_ok_bind, gr_ok_bind]
+        have e1 : off + (j + 1) = off + j + 1 := by omega
+        have e2 : off + j + (k + 1) = off + j + 1 + k := by omega
+        rw [e1, e2, gx_take_set _ _ _ hi, List.drop_set_of_lt (by omega)]
+        simp
+
+/-! ### `RNSTool::mod_t_and_divide_q_last_ntt_inplace` (the (i)NTT calls are the abstract function inputs) -/
+
+theorem gr_getD_of_lt (l : List Nat) (j : Nat) (h : j < l.length) : l.getD j 0 = l[j] := by
+  rw [List.getD_eq_getElem?_getD, List.getElem?_eq_getElem h]; rfl
+
+theorem gr_getD_mem (cs : List (List Nat)) (i : Nat) (h : i < cs.length) : cs.getD i [] ∈ cs := by
+  rw [List.getD_eq_getElem?_getD, List.getElem?_eq_getElem h]; exact List.getElem_mem _
+
+theorem gr_mtdn_loop2 (cs : List (List Nat)) (s n : Nat) (b : Modulus) (v6 : List Nat) (hb : b.WF) (hs : 1 ≤ s) (hsn : s * n < 2^64)
+    (hcs : cs.length = s) (hn : ∀ c ∈ cs, c.length = n) (hw : ∀ x ∈ cs.getD (s-1) [], x < 2^64) (hv : v6.length = n) (hvb : ∀ x ∈ v6, x < b.value) :
+    GenR.mod_t_and_divide_q_last_ntt_inplace_loop2 cs.flatten s n b n 0 v6
+      = .ok ((List.range' 0 n).map (fun j => v6.getD j 0 + (cs.getD (s-1) []).getD j 0 % b.value)) := by
+  have hfl := gr_flat_length n cs hn
+  rw [hcs] at hfl
+  have hmul : (s-1) * n + n = s * n := by rw [← Nat.succ_mul]; congr 1; omega
+  rw [gr_idxloop (GenR.mod_t_and_divide_q_last_ntt_inplace_loop2 cs.flatten s n b)
+    (fun j old => barrett64 (cs.flatten.getD ((s-1)*n + j) 0) b >>= fun cl => ckAdd old cl) n (fun _ _ => rfl) (by
+      intro k j l hj hjn
+      rw [GenR.mod_t_and_divide_q_last_ntt_inplace_loop2]
+      have e1 : ckSub s 1 = .ok (s-1) := gr_ckSub_ok hs
+      have e2 : ckMul (s-1) n = .ok ((s-1)*n) := gr_ckMul_ok (by omega)
+      have e3 : ckAdd ((s-1)*n) j = .ok ((s-1)*n + j) := gr_ckAdd_ok (by omega)
+      have hlt : (s-1)*n + j < cs.flatten.length := by omega
+      have e4 : GenW.idx cs.flatten ((s-1)*n + j) = .ok (cs.flatten.getD ((s-1)*n + j) 0) := by rw [gw_idx_eq _ _ hlt, gr_getD_of_lt _ _ hlt]
+      simp only [e1, e2, e3, e4, gw_idx_eq _ _ hj, gr_modulus_reduce_eq, bind, Except.bind]
+      cases barrett64 (cs.flatten.getD ((s-1)*n + j) 0) b with
+      | error e => rfl
+      | ok cl => rfl) n 0 v6 (by omega) (by omega)]
+  rw [gr_mapM_ok _ (fun j => v6.getD j 0 + (cs.getD (s-1) []).getD j 0 % b.value)]
+  · rfl
+  · intro j hj
+    rw [List.mem_range'_1] at hj
+    have hb0 : 0 < b.value := by have := hb.two_le; omega
+    rw [gr_flat_getD n cs (s-1) j hn (by omega) (by omega), barrett64_exact hb (gr_getD_mem_lt hw (by norm_num) j), gr_ok_bind]
+    have h1 := gr_getD_mem_lt hvb hb0 j
+    have h2 := Nat.mod_lt ((cs.getD (s-1) []).getD j 0) hb0
+    have := hb.lt
+    exact gr_ckAdd_ok (by omega)
+
+theorem gr_mtdn_loop3 (cs : List (List Nat)) (s n i : Nat) (b : Modulus) (v6 : List Nat) (hi : i < s) (hsn : s * n < 2^64)
+    (hcs : cs.length = s) (hn : ∀ c ∈ cs, c.length = n) (hv : v6.length = n) :
+    GenR.mod_t_and_divide_q_last_ntt_inplace_loop3 n v6 i b n 0 cs.flatten
+      = .ok (cs.set i ((List.range' 0 n).map (fun j => subModV ((cs.getD i []).getD j 0) (v6.getD j 0) b))).flatten := by
+  have hfl := gr_flat_length n cs hn
+  rw [hcs] at hfl
+  have hin : i * n + n ≤ s * n := by
+    have := Nat.mul_le_mul_right n (Nat.succ_le_of_lt hi); rw [Nat.succ_mul] at this; exact this
+  rw [gr_offloop (GenR.mod_t_and_divide_q_last_ntt_inplace_loop3 n v6 i b) (fun j old => .ok (subModV old (v6.getD j 0) b)) (i*n) n (fun _ _ => rfl) (by
+      intro k j l hj hjn
+      rw [GenR.mod_t_and_divide_q_last_ntt_inplace_loop3]
+      have e1 : ckMul i n = .ok (i*n) := gr_ckMul_ok (by omega)
+      have e2 : ckAdd (i*n) j = .ok (i*n + j) := gr_ckAdd_ok (by omega)
+      have hvj : j < v6.length := by omega
+      simp only [e1, e2, gw_idx_eq _ _ hj, gw_idx_eq _ _ hvj, gw_sub_u64_mod_eq, gr_subMod, gx_setIdx_ok _ _ _ hj, bind, Except.bind, gr_getD_of_lt _ _ hvj])
+    n 0 cs.flatten (by omega) (by omega)]
+  rw [gr_mapM_ok _ (fun j => subModV ((cs.getD i []).getD j 0) (v6.getD j 0) b)]
+  · rw [gr_ok_bind, Nat.add_zero, ← gr_splice_flat n cs i _ hn (by omega) (by rw [List.length_map, List.length_range'])]
+    unfold GenR.splice
+    rw [List.length_map, List.length_range']
+  · intro j hj
+    rw [List.mem_range'_1] at hj
+    rw [gr_flat_getD n cs i j hn (by omega) (by omega)]
+
+/-- component `i` after the routine (`NTi` = the forward NTT of table `i`, `neg` = −c_last·q_last⁻¹ mod t, `lastc` = iNTT of the last component) -/
+def gr_mtdnComp (b : Modulus) (lastv : Nat) (inv : MulOperand) (NTi : List Nat → List Nat) (neg lastc ci : List Nat) : List Nat :=
+  ((List.range' 0 ci.length).map (fun j => subModV (ci.getD j 0)
+      ((NTi ((List.range' 0 ci.length).map (fun j => (neg.map (fun x => (x % b.value * lastv) % b.value)).getD j 0 + lastc.getD j 0 % b.value))).getD j 0) b)).map
+    (fun x => mulOpV x inv b)
+
+def gr_mtdnFold (qs : List Modulus) (invs : List MulOperand) (NT : Nat → List Nat → List Nat) (lastv s : Nat) (neg : List Nat) :
+    Nat → Nat → List (List Nat) → List (List Nat)
+  | 0, _, cs => cs
+  | k+1, i, cs => gr_mtdnFold qs invs NT lastv s neg k (i+1)
+      (cs.set i (gr_mtdnComp (qs.getD i gr_dflt) lastv (invs.getD i default) (NT i) neg (cs.getD (s-1) []) (cs.getD i [])))
+
+theorem gr_mtdn_loop (qs : List Modulus) (invs : List MulOperand) (NT : Nat → List Nat → List Nat) (lastv s n : Nat) (neg : List Nat)
+    (hqs : qs.length = s) (hinv : s - 1 ≤ invs.length) (hq : ∀ i, i < s → (qs.getD i gr_dflt).WF) (hsn : s * n < 2^64) (hs64 : s < 2^64)
+    (hlv : lastv < 2^64) (hneg : neg.length = n) (hnegw : ∀ x ∈ neg, x < 2^64) (hNT : ∀ i x, i < s - 1 → x.length = n → (NT i x).length = n) :
+    ∀ k i (cs : List (List Nat)) (temp : List Nat), i + k = s - 1 → cs.length = s → (∀ c ∈ cs, c.length = n) → temp.length = n →
+      (∀ x ∈ cs.getD (s-1) [], x < 2^64) →
+      GenR.mod_t_and_divide_q_last_ntt_inplace_loop1 s lastv n neg qs (fun i x => .ok (NT i x)) invs k i cs.flatten temp
+        = .ok (gr_mtdnFold qs invs NT lastv s neg k i cs).flatten := by
+  intro k
+  induction k with
+  | zero => intro i cs temp _ _ _ _ _; rfl
+  | succ k ih =>
+    intro i cs temp hik hcs hn ht hl
+    have hb := hq i (by omega)
+    have hb0 : 0 < (qs.getD i gr_dflt).value := by have := hb.two_le; omega
+    have hmul : ∀ a, a ≤ s → a * n < 2^64 := fun a ha => Nat.lt_of_le_of_lt (Nat.mul_le_mul_right n ha) hsn
+    have hcilen : (cs.getD i []).length = n := hn _ (gr_getD_mem cs i (by omega))
+    have e1 : GenR.idxMod qs i = .ok (qs.getD i gr_dflt) := gr_idxMod_ok qs i _ (by omega)
+    have e2 : GenR.modulo neg (qs.getD i gr_dflt) temp = .ok (neg.map (fun x => x % (qs.getD i gr_dflt).value)) := by
+      rw [gr_modulo_eq _ _ _ (by rw [ht, hneg])]
+      exact gr_mapM_ok _ _ _ (fun x hx => barrett64_exact hb (hnegw x hx))
+    have e3 : GenR.multiply_scalar_inplace (neg.map (fun x => x % (qs.getD i gr_dflt).value)) lastv (qs.getD i gr_dflt)
+        = .ok (neg.map (fun x => (x % (qs.getD i gr_dflt).value * lastv) % (qs.getD i gr_dflt).value)) := by
+      rw [gr_multiply_scalar_inplace_eq, gr_mapM_ok _ (fun x => (x * lastv) % (qs.getD i gr_dflt).value), List.map_map]; rfl
+      intro x hx
+      obtain ⟨y, -, rfl⟩ := List.mem_map.mp hx
+      have := Nat.mod_lt y hb0; have := hb.lt
+      exact mulMod_exact hb (by omega) hlv
+    obtain ⟨d0, hd0⟩ : ∃ d0, d0 = neg.map (fun x => (x % (qs.getD i gr_dflt).value * lastv) % (qs.getD i gr_dflt).value) := ⟨_, rfl⟩
+    rw [← hd0] at e3
+    have hd0len : d0.length = n := by rw [hd0, List.length_map, hneg]
+    have hd0b : ∀ x ∈ d0, x < (qs.getD i gr_dflt).value := by
+      intro x hx; rw [hd0] at hx; obtain ⟨y, -, rfl⟩ := List.mem_map.mp hx; exact Nat.mod_lt _ hb0
+    have e4 := gr_mtdn_loop2 cs s n (qs.getD i gr_dflt) d0 hb (by omega) hsn hcs hn hl hd0len hd0b
+    obtain ⟨d1, hd1⟩ : ∃ d1, d1 = (List.range' 0 n).map (fun j => d0.getD j 0 + (cs.getD (s-1) []).getD j 0 % (qs.getD i gr_dflt).value) := ⟨_, rfl⟩
+    rw [← hd1] at e4
+    have hd1len : d1.length = n := by rw [hd1, List.length_map, List.length_range']
+    have hd2len := hNT i d1 (by omega) hd1len
+    have e5 := gr_mtdn_loop3 cs s n i (qs.getD i gr_dflt) (NT i d1) (by omega) hsn hcs hn hd2len
+    obtain ⟨d, hd⟩ : ∃ d, d = (List.range' 0 n).map (fun j => subModV ((cs.getD i []).getD j 0) ((NT i d1).getD j 0) (qs.getD i gr_dflt)) := ⟨_, rfl⟩
+    rw [← hd] at e5
+    have hdlen : d.length = n := by rw [hd, List.length_map, List.length_range']
+    have hn' := gr_set_length_mem n cs i d hn hdlen
+    have e7 : ckMul i n = .ok (i * n) := gr_ckMul_ok (hmul i (by omega))
+    have e8 : ckAdd i 1 = .ok (i + 1) := gr_ckAdd_ok (by omega)
+    have e9 : ckMul (i+1) n = .ok (i * n + n) := by rw [gr_ckMul_ok (hmul (i+1) (by omega)), Nat.succ_mul]
+    have e13 : GenR.slice (cs.set i d).flatten (i*n) (i*n + n) = .ok d := by
+      rw [gr_slice_flat n (cs.set i d) i hn' (by rw [List.length_set]; omega), gr_getD_set_self _ _ _ _ (by omega)]
+    have e14 : GenR.idxOp invs i = .ok (invs.getD i default) := gr_idxOp_ok invs i _ (by omega)
+    have e15 : GenR.multiply_operand_inplace d (invs.getD i default) (qs.getD i gr_dflt) = .ok (d.map (fun x => mulOpV x (invs.getD i default) (qs.getD i gr_dflt))) := by
+      rw [gr_multiply_operand_inplace_eq]; exact gr_mapM_ok _ _ _ (fun x _ => gr_mulOperandMod _ _ _)
+    have e16 : GenR.splice (cs.set i d).flatten (i*n) (d.map (fun x => mulOpV x (invs.getD i default) (qs.getD i gr_dflt)))
+        = (cs.set i (d.map (fun x => mulOpV x (invs.getD i default) (qs.getD i gr_dflt)))).flatten := by
+      rw [gr_splice_flat n (cs.set i d) i _ hn' (by rw [List.length_set]; omega) (by rw [List.length_map]; exact hdlen), List.set_set]
+    rw [GenR.mod_t_and_divide_q_last_ntt_inplace_loop1]
+    simp only [e1, e2, e3, e4, e5, e7, e8, e9, e13, e14, e15, e16, bind, Except.bind]
+    have hcomp : d.map (fun x => mulOpV x (invs.getD i default) (qs.getD i gr_dflt))
+        = gr_mtdnComp (qs.getD i gr_dflt) lastv (invs.getD i default) (NT i) neg (cs.getD (s-1) []) (cs.getD i []) := by
+      rw [hd, hd1, hd0]; unfold gr_mtdnComp; rw [hcilen]
+    rw [hcomp, gr_mtdnFold]
+    have hcl : (gr_mtdnComp (qs.getD i gr_dflt) lastv (invs.getD i default) (NT i) neg (cs.getD (s-1) []) (cs.getD i [])).length = n := by
+      rw [← hcomp, List.length_map]; exact hdlen
+    refine ih (i+1) _ _ (by omega) (by rw [List.length_set]; exact hcs) (gr_set_length_mem n cs i _ hn hcl) hd2len ?_
+    rw [gr_getD_set_ne _ _ _ _ _ (by omega)]
+    exact hl
+
+theorem gr_mtdnFold_getD (qs : List Modulus) (invs : List MulOperand) (NT : Nat → List Nat → List Nat) (lastv s : Nat) (neg : List Nat) :
+    ∀ k i (cs : List (List Nat)), i + k ≤ s - 1 → cs.length = s →
+      (gr_mtdnFold qs invs NT lastv s neg k i cs).length = s ∧ ∀ j, (gr_mtdnFold qs invs NT lastv s neg k i cs).getD j [] =
+        if i ≤ j ∧ j < i + k then gr_mtdnComp (qs.getD j gr_dflt) lastv (invs.getD j default) (NT j) neg (cs.getD (s-1) []) (cs.getD j []) else cs.getD j [] := by
+  intro k
+  induction k with
+  | zero => intro i cs _ hcs; exact ⟨hcs, fun j => by rw [if_neg (by omega)]; rfl⟩
+  | succ k ih =>
+    intro i cs hik hcs
+    rw [gr_mtdnFold]
+    obtain ⟨h1, h2⟩ := ih (i+1) (cs.set i (gr_mtdnComp (qs.getD i gr_dflt) lastv (invs.getD i default) (NT i) neg (cs.getD (s-1) []) (cs.getD i [])))
+      (by omega) (by rw [List.length_set]; exact hcs)
+    refine ⟨h1, fun j => ?_⟩
+    rw [h2 j, gr_getD_set_ne _ _ (s-1) _ _ (by omega)]
+    by_cases hj : j = i
+    · subst hj
+      rw [if_neg (by omega), if_pos (by omega), gr_getD_set_self _ _ _ _ (by omega)]
+    · rw [gr_getD_set_ne _ _ j _ _ (by omega)]
+      by_cases hc : i + 1 ≤ j ∧ j < i + 1 + k
+      · rw [if_pos hc, if_pos (by omega)]
+      · rw [if_neg hc, if_neg (by omega)]
+
+/-- `neg_c_last_mod_t`: −c_last (mod t), times q_last⁻¹ (mod t) unless that inverse is 1 -/
+def gr_negList (t : Modulus) (invt : Nat) (lastc : List Nat) : List Nat :=
+  if invt ≠ 1 then (lastc.map (fun x => (t.value - x % t.value) % t.value)).map (fun x => (x * invt) % t.value)
+  else lastc.map (fun x => (t.value - x % t.value) % t.value)
+
+theorem gr_negList_length (t : Modulus) (invt : Nat) (lastc : List Nat) : (gr_negList t invt lastc).length = lastc.length := by
+  unfold gr_negList; split <;> simp
+
+theorem gr_negList_lt (t : Modulus) (ht : t.WF) (invt : Nat) (lastc : List Nat) : ∀ x ∈ gr_negList t invt lastc, x < 2^64 := by
+  have ht0 : 0 < t.value := by have := ht.two_le; omega
+  have := ht.lt
+  intro x hx
+  unfold gr_negList at hx
+  split at hx
+  · obtain ⟨y, -, rfl⟩ := List.mem_map.mp hx; have := Nat.mod_lt (y * invt) ht0; omega
+  · obtain ⟨y, -, rfl⟩ := List.mem_map.mp hx; have := Nat.mod_lt (t.value - y % t.value) ht0; omega
+
+/-- the three passes that build `neg_c_last_mod_t` (modulo, negate_inplace, conditional multiply_scalar_inplace) -/
+theorem gr_neg_passes (t : Modulus) (ht : t.WF) (invt : Nat) (hinvt : invt < 2^64) (lastc buf : List Nat) (hbuf : buf.length = lastc.length)
+    (hw : ∀ x ∈ lastc, x < 2^64) :
+    ∃ v1 v2, GenR.modulo lastc t buf = .ok v1 ∧ GenR.negate_inplace v1 t = .ok v2 ∧
+      (if invt ≠ 1 then GenR.multiply_scalar_inplace v2 invt t else pure v2) = .ok (gr_negList t invt lastc) := by
+  have ht0 : 0 < t.value := by have := ht.two_le; omega
+  have h61 := ht.lt
+  refine ⟨lastc.map (fun x => x % t.value), (lastc.map (fun x => x % t.value)).map (fun y => (t.value - y) % t.value), ?_, ?_, ?_⟩
+  · rw [gr_modulo_eq _ _ _ hbuf]; exact gr_mapM_ok _ _ _ (fun x hx => barrett64_exact ht (hw x hx))
+  · rw [gr_negate_inplace_eq]
+    apply gr_mapM_ok
+    intro x hx
+    obtain ⟨y, -, rfl⟩ := List.mem_map.mp hx
+    exact negateMod_exact ht (Nat.mod_lt _ ht0).le
+  · unfold gr_negList
+    rw [List.map_map]
+    by_cases h1 : invt ≠ 1
+    · rw [if_pos h1, if_pos h1, gr_multiply_scalar_inplace_eq, gr_mapM_ok _ (fun x => (x * invt) % t.value)]
+      · rfl
+      · intro x hx
+        obtain ⟨y, -, rfl⟩ := List.mem_map.mp hx
+        have := Nat.mod_lt (t.value - y % t.value) ht0
+        exact mulMod_exact ht (by simp only [Function.comp]; omega) hinvt
+    · rw [if_neg h1, if_neg h1]; rfl
+
+/-- the generated routine on a flat buffer (`IT`, `NT` = what the abstract (i)NTT inputs return; both keep the length `n`) -/
+theorem gr_mtdn_list (qs : List Modulus) (invs : List MulOperand) (t : Modulus) (invt s n : Nat) (IT NT : Nat → List Nat → List Nat) (cs : List (List Nat))
+    (hs : 1 ≤ s) (hqs : qs.length = s) (hinv : s - 1 ≤ invs.length) (hq : ∀ i, i < s → (qs.getD i gr_dflt).WF) (ht : t.WF) (hinvt : invt < 2^64)
+    (hsn : s * n < 2^64) (hs64 : s < 2^64) (hcs : cs.length = s) (hn : ∀ c ∈ cs, c.length = n)
+    (hIT : (IT (s-1) (cs.getD (s-1) [])).length = n) (hITw : ∀ x ∈ IT (s-1) (cs.getD (s-1) []), x < 2^64)
+    (hNT : ∀ i x, i < s - 1 → x.length = n → (NT i x).length = n) :
+    GenR.mod_t_and_divide_q_last_ntt_inplace cs.flatten s qs n invs t invt (fun i x => .ok (IT i x)) (fun i x => .ok (NT i x)) =
+      .ok ((List.range' 0 (s-1)).map (fun i => gr_mtdnComp (qs.getD i gr_dflt) (qs.getD (s-1) gr_dflt).value (invs.getD i default) (NT i)
+              (gr_negList t invt (IT (s-1) (cs.getD (s-1) []))) (IT (s-1) (cs.getD (s-1) [])) (cs.getD i []))
+            ++ [IT (s-1) (cs.getD (s-1) [])]).flatten := by
+  have hmul : ∀ a, a ≤ s → a * n < 2^64 := fun a ha => Nat.lt_of_le_of_lt (Nat.mul_le_mul_right n ha) hsn
+  have hsn' : s * n = (s-1) * n + n := by rw [← Nat.succ_mul]; congr 1; omega
+  have hL := hq (s-1) (by omega)
+  obtain ⟨lastc, hlc⟩ : ∃ lastc, lastc = IT (s-1) (cs.getD (s-1) []) := ⟨_, rfl⟩
+  rw [← hlc] at hIT hITw ⊢
+  have e1 : ckSub s 1 = .ok (s-1) := gr_ckSub_ok hs
+  have e2 : GenR.idxMod qs (s-1) = .ok (qs.getD (s-1) gr_dflt) := gr_idxMod_ok qs _ _ (by omega)
+  have e3 : ckMul (s-1) n = .ok ((s-1)*n) := gr_ckMul_ok (hmul _ (by omega))
+  have e4 : ckMul s n = .ok ((s-1)*n + n) := by rw [gr_ckMul_ok (hmul _ (Nat.le_refl _)), hsn']
+  have e5 : GenR.slice cs.flatten ((s-1)*n) ((s-1)*n + n) = .ok (cs.getD (s-1) []) := gr_slice_flat n cs (s-1) hn (by omega)
+  have e6 : GenR.splice cs.flatten ((s-1)*n) lastc = (cs.set (s-1) lastc).flatten := gr_splice_flat n cs (s-1) lastc hn (by omega) hIT
+  have hn' := gr_set_length_mem n cs (s-1) lastc hn hIT
+  have hlastget : (cs.set (s-1) lastc).getD (s-1) [] = lastc := gr_getD_set_self _ _ _ _ (by omega)
+  have e7 : GenR.slice (cs.set (s-1) lastc).flatten ((s-1)*n) ((s-1)*n + n) = .ok lastc := by
+    rw [gr_slice_flat n _ (s-1) hn' (by rw [List.length_set]; omega), hlastget]
+  obtain ⟨w1, w2, e8, e9, e10⟩ := gr_neg_passes t ht invt hinvt lastc (List.replicate n 0) (by rw [List.length_replicate, hIT]) hITw
+  unfold GenR.mod_t_and_divide_q_last_ntt_inplace
+  simp only [e1, e2, e3, e4, e5, ← hlc, e6, e7, e8, e9, e10, bind, Except.bind]
+  rw [gr_mtdn_loop qs invs NT _ s n _ hqs hinv hq hsn hs64 (by have := hL.lt; omega) (by rw [gr_negList_length, hIT]) (gr_negList_lt t ht invt lastc) hNT
+    (s-1) 0 (cs.set (s-1) lastc) (List.replicate n 0) (by omega) (by rw [List.length_set]; exact hcs) hn' List.length_replicate (by rw [hlastget]; exact hITw)]
+  congr 2
+  obtain ⟨h1, h2⟩ := gr_mtdnFold_getD qs invs NT (qs.getD (s-1) gr_dflt).value s (gr_negList t invt lastc) (s-1) 0 (cs.set (s-1) lastc) (by omega) (by rw [List.length_set]; exact hcs)
+  apply gr_ext_getD [] _ _ (by rw [h1, List.length_append, List.length_map, List.length_range']; simp; omega)
+  intro j hj
+  rw [h2 j, hlastget]
+  by_cases hjs : j < s - 1
+  · rw [if_pos (by omega), gr_getD_set_ne _ _ _ _ _ (by omega), gr_getD_append_left _ _ _ _ (by rw [List.length_map, List.length_range']; exact hjs),
+      gr_getD_map_range' _ _ _ _ hjs]
+  · have : j = s - 1 := by omega
+    rw [if_neg (by omega), this, hlastget, gr_getD_append_right _ _ _ _ (by rw [List.length_map, List.length_range']),
+      List.length_map, List.length_range', Nat.sub_self]
+    rfl
